@@ -307,35 +307,45 @@ Definition shape_of (f0 : file) (S T V : nat) : list nat :=
     (if Nat.eqb T 1 then [f_rows f0; f_cols f0; z] else [f_rows f0; f_cols f0; z; T])
   else [f_rows f0; f_cols f0; z; T; V].
 
+(** lines 640-671: the counting checks; result (num_volumes, num_time_points) *)
+Definition grid_dims (n S V : nat) (P : list Qc) : res (nat * nat) :=
+  if Nat.eqb n 0 then Err EInvalidStack else
+  if (1 <? S) && negb (spacing_ok P) then Err EInvalidStack else
+  if Nat.eqb S 0 then Err ECrash else                  (* ZeroDivisionError: unreachable *)
+  if negb (Nat.eqb (n mod S) 0) then Err EInvalidStack else
+  let nvol := n / S in
+  if nvol <? V then Err EInvalidStack else
+  if Nat.eqb V 0 then Err ECrash else                  (* ZeroDivisionError: unreachable *)
+  if negb (Nat.eqb (nvol mod V) 0) then Err EInvalidStack else
+  Ok (nvol, nvol / V).
+
+(** lines 673-721: guess the time key when nothing was specified and there are several volumes,
+    otherwise just check the order *)
+Definition order_files (st : state) (P : list Qc) (S nvol T V : nat) : list entry * res unit :=
+  let fi := files_info st in
+  if (1 <? nvol) && negb (cfg_time st) && negb (cfg_vec st) then
+    let cands := filter (guess_candidate fi nvol (length fi)) sort_guesses in
+    match cands with
+    | [] => (fi, Err EInvalidStack)
+    | _ => try_orders cands fi P S nvol T V
+    end
+  else chk_order fi P S nvol T V.
+
 (** the computation performed when the dirty flag is set *)
 Definition compute_shape (st : state) : state * res (list nat) :=
-  let fi := files_info st in
-  let n := length fi in
-  if Nat.eqb n 0 then (st, Err EInvalidStack) else
   let S := length (pos_vals st) in
   let P := ssort qc_leb (pos_vals st) in
-  if (1 <? S) && negb (spacing_ok P) then (st, Err EInvalidStack) else
-  if Nat.eqb S 0 then (st, Err ECrash) else            (* ZeroDivisionError: unreachable *)
-  if negb (Nat.eqb (n mod S) 0) then (st, Err EInvalidStack) else
-  let nvol := n / S in
   let V := length (vec_vals st) in
-  if nvol <? V then (st, Err EInvalidStack) else
-  if Nat.eqb V 0 then (st, Err ECrash) else            (* ZeroDivisionError: unreachable *)
-  if negb (Nat.eqb (nvol mod V) 0) then (st, Err EInvalidStack) else
-  let T := nvol / V in
-  let '(fi2, r) :=
-    if (1 <? nvol) && negb (cfg_time st) && negb (cfg_vec st) then
-      let cands := filter (guess_candidate fi nvol n) sort_guesses in
-      match cands with
-      | [] => (fi, Err EInvalidStack)
-      | _ => try_orders cands fi P S nvol T V
+  match grid_dims (length (files_info st)) S V P with
+  | Err e => (st, Err e)
+  | Ok (nvol, T) =>
+      let '(fi2, r) := order_files st P S nvol T V in
+      match r with
+      | Err e => (with_files st fi2, Err e)
+      | Ok _ =>
+          let sh := shape_of (e_file (nth 0 fi2 dflt_entry)) S T V in
+          (with_shape (with_files st fi2) false (Some sh), Ok sh)
       end
-    else chk_order fi P S nvol T V in
-  match r with
-  | Err e => (with_files st fi2, Err e)
-  | Ok _ =>
-      let sh := shape_of (e_file (nth 0 fi2 dflt_entry)) S T V in
-      (with_shape (with_files st fi2) false (Some sh), Ok sh)
   end.
 
 Definition get_shape (st : state) : state * res (list nat) :=
